@@ -27,12 +27,11 @@ Block affinity releases (`releaseTrace` = the state at the moment of each call; 
 * `reachable_idx`/`idx_step` — `blocksByNode[n]` is exactly the duplicate-free set of blocks with
   `nodesByBlock[b] = n`, and `emptyBlocks` entries name their block's node, in every reachable state.
 * `never_last_block_index` — at each release another block `b'` has `nodesByBlock[b'] = node` (all reachable states).
-* `never_last_block_partial` — w.r.t. the blocks SEEN (`seen`, a ghost field = latest host affinity delivered
-  for each block): at each release another block's latest seen affinity is `node`, PROVIDED no block update
-  so far carried a non-`host:` affinity (`NoOther`; `reachable_tracks_partial`).  Without that proviso it is
-  FALSE of the current code: `onBlockUpdated` ignores a `virtual:` affinity and leaves `nodesByBlock` /
-  `blocksByNode` stale — `last_block_released_witness_virtual` (reproduced on the real controller,
-  corpus/C23/last-block-virtual.ops, oracle signature `last-block-stale-index`).
+* `never_last_block` — FULL strength w.r.t. the blocks SEEN (`seen`, a ghost field = latest host affinity delivered
+  for each block; `reachable_tracks`: `nodesByBlock` agrees with it in every reachable state): at each release
+  another block's latest seen affinity is `node`.  Both routes that used to break this are repaired in /repo
+  (host→host 361e296, host→non-host 8ebf246); `last_block_history_fixed` / `last_block_virtual_history_fixed` are the
+  old counterexample histories (kept as corpus + oracle signature `last-block-stale-index`).
 -/
 namespace CalicoVerif.C23
 
@@ -328,10 +327,10 @@ theorem never_last_block_index (st : St) (hI : Idx st) :
     ∀ t ∈ releaseTrace st (sortKV st.emptyBlocks), NotLast t.1 t.2.1 t.2.2 :=
   fun t ht => (((trace_spec st _ (listOK_sortKV st)).2.1 hI).2 t ht).2
 
-/-- **never_last_block w.r.t. the blocks SEEN (partial: needs `Tracks`).**  If moreover `nodesByBlock` agrees with
-the latest host affinity seen for every block (`reachable_tracks_partial`: true while no block update carried a
-non-`host:` affinity), then at each release another block's latest seen affinity is `node`. -/
-theorem never_last_block_partial (st : St) (hI : Idx st) (hT : Tracks st) :
+/-- **never_last_block w.r.t. the blocks SEEN.**  In a state with consistent indexes that agree with the latest host
+affinity seen for every block (every reachable state: `reachable_idx`, `reachable_tracks`), at the moment of each
+release the released block's latest seen affinity is `node` and ANOTHER block's latest seen affinity is `node`. -/
+theorem never_last_block (st : St) (hI : Idx st) (hT : Tracks st) :
     ∀ t ∈ releaseTrace st (sortKV st.emptyBlocks),
       t.1.seen.get t.2.1 = some t.2.2 ∧ ∃ b', b' ≠ t.2.1 ∧ t.1.seen.get b' = some t.2.2 := by
   intro t ht
@@ -359,11 +358,37 @@ theorem tracks_syncIPAM {s : St} (hT : Tracks s) : Tracks (syncIPAM s).1 := by
     exact tracks_of_fr ((trace_spec _ _ (listOK_sortKV _)).2.2 h2).1 (fr_foldl _ fr_markClean _ _)
   · simp only [hi]; exact hT
 
+theorem idx_syncStep {s : St} (hI : Idx s) : Idx (syncStep s).1 := by
+  unfold syncStep
+  split
+  · exact ((hI.of_fr (fr_checkAllocations s)).of_fr (fr_gcSelect _ _)).of_fr ⟨rfl, rfl, rfl, rfl⟩
+  · exact idx_syncIPAM hI
+
+theorem tracks_syncStep {s : St} (hT : Tracks s) : Tracks (syncStep s).1 := by
+  unfold syncStep
+  split
+  · exact tracks_of_fr (tracks_of_fr (tracks_of_fr hT (fr_checkAllocations s)) (fr_gcSelect _ _)) ⟨rfl, rfl, rfl, rfl⟩
+  · exact tracks_syncIPAM hT
+
+/-- when `ReleaseIPs` fails the attempted batch is justified in the same way (and nothing is released) -/
+theorem syncFail_release_justified (s : St) (batch : List (Nat × Nat × Nat × Nat))
+    (h : Call.releaseIPs batch ∈ (syncIPAMFail s).2.1) :
+    ∀ x ∈ batch, ∃ a ∈ (checkAllocations s).1.allocs, x = (a.block, a.ord, a.handle, a.seq) ∧
+      isValid (checkAllocations s).1.env a a.knode.isNone = false ∧ a.confirmed = true := by
+  intro x hx
+  simp only [syncIPAMFail, List.mem_singleton, Call.releaseIPs.injEq] at h
+  subst h
+  simp only [List.mem_map] at hx
+  obtain ⟨a, ha, rfl⟩ := hx
+  obtain ⟨h1, h2, h3, _⟩ := gcSelect_input (checkAllocations s).1 [] (checkAllocations s).1 _ rfl
+    (by rw [show mv [] = id from funext mv_nil]; simp) a ha
+  exact ⟨a, h1, rfl, h2, h3⟩
+
 theorem idx_onBlock {s : St} (hI : Idx s) (b : Nat) (aff : Aff) (es : List Entry) : Idx (onBlock s b aff es) := by
   cases aff with
   | host n => exact idx_onBlockUpdated hI b (some n) es
   | none => exact idx_onBlockUpdated hI b none es
-  | other => exact idx_onBlockOther hI b es
+  | other => exact idx_onBlockUpdated hI b none es
 
 /-- **store/index consistency is inductive** -/
 theorem idx_step {s : St} (hI : Idx s) (op : Op) : Idx (step s op).1 := by
@@ -373,9 +398,10 @@ theorem idx_step {s : St} (hI : Idx s) (op : Op) : Idx (step s op).1 := by
   | sync full =>
     simp only [step]
     cases full with
-    | true => exact idx_syncIPAM (s := { s with fullSync := true }) hI
-    | false => exact idx_syncIPAM hI
+    | true => exact idx_syncStep (s := { s with fullSync := true }) hI
+    | false => exact idx_syncStep hI
   | dirty n => exact hI.of_fr (fr_markDirty s n)
+  | failRel => exact hI
   | inSync => exact hI
   | cnode n k => exact hI
   | cnodeDel n => exact hI
@@ -431,12 +457,6 @@ theorem reachable_idx (g : Option Nat) (ops : List Op) : Idx (runOps { grace := 
     | cons op ops ih => intro s h; exact ih _ (idx_step h op)
   exact this _ (idx_init g)
 
-/-- no block update carries a non-`host:` affinity -/
-def NoOther : List Op → Prop
-  | [] => True
-  | .block _ .other _ :: _ => False
-  | _ :: ops => NoOther ops
-
 theorem nodesByBlock_onBlockUpdated (s : St) (b : Nat) (aff : Option Nat) (es : List Entry) (x : Nat) :
     (onBlockUpdated s b aff es).nodesByBlock.get x = if x = b then aff else s.nodesByBlock.get x := by
   unfold onBlockUpdated
@@ -461,7 +481,7 @@ theorem nodesByBlock_onBlockUpdated (s : St) (b : Nat) (aff : Option Nat) (es : 
       · subst hx; simp [hg]
       · simp [hx]
 
-theorem tracks_step {s : St} (hT : Tracks s) (op : Op) (hop : NoOther [op]) : Tracks (step s op).1 := by
+theorem tracks_step {s : St} (hT : Tracks s) (op : Op) : Tracks (step s op).1 := by
   cases op with
   | block b aff es =>
     cases aff with
@@ -473,14 +493,18 @@ theorem tracks_step {s : St} (hT : Tracks s) (op : Op) (hop : NoOther [op]) : Tr
       intro x
       show (onBlockUpdated s b none es).nodesByBlock.get x = (s.seen.del b).get x
       rw [nodesByBlock_onBlockUpdated, AMap.get_del, hT x]
-    | other => exact hop.elim
+    | other =>
+      intro x
+      show (onBlockUpdated s b none es).nodesByBlock.get x = (s.seen.del b).get x
+      rw [nodesByBlock_onBlockUpdated, AMap.get_del, hT x]
   | blockDel b => exact tracks_forgetBlock hT b
   | sync full =>
     simp only [step]
     cases full with
-    | true => exact tracks_syncIPAM (s := { s with fullSync := true }) hT
-    | false => exact tracks_syncIPAM hT
+    | true => exact tracks_syncStep (s := { s with fullSync := true }) hT
+    | false => exact tracks_syncStep hT
   | dirty n => exact tracks_of_fr hT (fr_markDirty s n)
+  | failRel => exact hT
   | inSync => exact hT
   | cnode n k => exact hT
   | cnodeDel n => exact hT
@@ -489,23 +513,18 @@ theorem tracks_step {s : St} (hT : Tracks s) (op : Op) (hop : NoOther [op]) : Tr
   | podDel id c a => exact hT
   | tick d => exact hT
 
-theorem noOther_cons {op : Op} {ops : List Op} (h : NoOther (op :: ops)) : NoOther [op] ∧ NoOther ops := by
-  cases op with
-  | block b aff es => cases aff <;> simp_all [NoOther]
-  | _ => simp_all [NoOther]
-
-/-- **partial: the indexes agree with the blocks seen as long as no block update carried a non-`host:` affinity** -/
-theorem reachable_tracks_partial (g : Option Nat) (ops : List Op) (h : NoOther ops) : Tracks (runOps { grace := g } ops).1 := by
-  have : ∀ (s : St), Tracks s → NoOther ops → Tracks (runOps s ops).1 := by
+/-- **the indexes agree with the blocks seen in every reachable state** (since /repo 8ebf246 also for blocks
+re-seen with a non-`host:` affinity) -/
+theorem reachable_tracks (g : Option Nat) (ops : List Op) : Tracks (runOps { grace := g } ops).1 := by
+  have : ∀ (s : St), Tracks s → Tracks (runOps s ops).1 := by
     induction ops with
-    | nil => intro s h _; exact h
-    | cons op ops ih =>
-      intro s hT hn
-      obtain ⟨h1, h2⟩ := noOther_cons hn
-      exact ih h2 _ (tracks_step hT op h1) h2
-  exact this _ (fun b => by simp [AMap.get]) h
+    | nil => intro s h; exact h
+    | cons op ops ih => intro s hT; exact ih _ (tracks_step hT op)
+  exact this _ (fun b => by simp [AMap.get])
 
-/-! ### `never_last_block` w.r.t. the blocks seen is FALSE when a block's affinity becomes non-host -/
+/-! ### the two histories that released a node's last block before the repairs -/
+
+
 
 /-- node 1 owns blocks 1 (one tunnel address) and 2 (empty); block 1 is then seen with a `virtual:` affinity
 (not a host affinity: node 1 no longer owns it); two syncs 70 minutes apart (grace 60). -/
@@ -515,14 +534,10 @@ def lastBlockVirtualHistory : List Op :=
    .block 1 .other [⟨0, some 7, .tunnel, 1, 0, 1⟩],
    .sync true, .tick 70, .sync true]
 
-/-- **Witness.** The collector releases the affinity of block 2 — the ONLY block whose latest seen affinity is
-node 1 — because `onBlockUpdated` left `nodesByBlock[1] = 1` / `blocksByNode[1] ∋ 1` untouched when block 1
-arrived with a non-`host:` affinity. -/
-theorem last_block_released_witness_virtual :
+/-- with the repaired `onBlockUpdated` (/repo 8ebf246) that history releases nothing: block 2 is node 1's only block -/
+theorem last_block_virtual_history_fixed :
     let r := runOps { grace := some 60 } lastBlockVirtualHistory
-    r.2.getLast? = some [Call.releaseBlockAffinity 2 1] ∧
-    r.1.seen = [] ∧                       -- no block seen is affine to node 1 any more
-    r.1.nodesByBlock = [(1, 1)] := by     -- yet the index still says block 1 belongs to node 1
+    r.2.getLast? = some [] ∧ r.1.blocksByNode.get 1 = some [2] ∧ r.1.nodesByBlock.get 1 = none := by
   decide +kernel
 
 /-- the host→host history that was a counterexample before /repo 361e296 now releases nothing -/
